@@ -13,12 +13,21 @@ tables `Gen/NotifNames.lean`, which are REGENERATED from the defcon sources on e
 * Sentence 3 is `documented_posted` (`decide` over the regenerated name tables) and, for the notification a
   component posts because ANOTHER object changed (`Component.BaseGlyphDataChanged`), section 5:
   `base_glyph_data_changed_posted` about M-Follow (`DefconModel/Follow.lean`), for every history.
+* WHICH getter a notification's old/new values talk about is data of the model (`NotifGetters.lean`), tied to the
+  sources (`getter_keys_follow_source`, `payload_sites_have_getters`) and to the catalogue
+  (`catalogue_reads_table_getters`): section 0.
+* Section 6: three places where "the getter" is a computation of its own — the life cycle of a file name in an
+  image set (`image_lifecycle_announcements`), the glyph order the font keeps in step with its layers
+  (`glyph_order_change_announced`), the direction of a contour without area (`winding_payload_truth`).
 * Where the code violates a sentence the full statement is kept as a `def … : Prop`, the proved part
   is `…_partial` and each recorded finding has a `…_violated` witness.
 -/
 import DefconModel.Lemmas.Setters
 import DefconModel.Lemmas.SettersArith
 import DefconModel.Lemmas.Follow
+import DefconModel.Lemmas.SettersImages
+import DefconModel.Lemmas.OrderNotify
+import DefconModel.Lemmas.SettersWinding
 import DefconModel.Gen.NotifNames
 
 namespace DefconModel.Props.C08
@@ -34,6 +43,35 @@ abbrev T : Tables := Gen.NotifNames.tables
 read after it / read in the post itself), hold and release brackets, loops and state changes, in the
 same order, as the skeleton extracted from the sources on this run. -/
 theorem catalogue_follows_source : ∀ e ∈ catalogue, followsSource T e = true := by decide +kernel
+
+/-- getter_keys_follow_source.  Every `self.postNotification(...)` of Lib/defcon/objects (table regenerated from the
+AST on this run) whose notification has a row in the getter table hands over a dict with exactly that row's old-value
+key and new-value key (no other old/new value key) and the key that names the item the getter is applied to; a
+statement that forwards somebody else's data instead is one of the recorded sites (F44). -/
+theorem getter_keys_follow_source : ∀ s ∈ T.sites, siteOk T s = true := by decide +kernel
+
+/-- payload_sites_have_getters.  Conversely no row is dead (every notification of the getter table is posted by
+some statement of the sources) and — part of `siteOk` — every statement that hands over an old or new value posts a
+notification of the table, or one of the three listed as outside it (`outsideTable`). -/
+theorem payload_sites_have_getters : ∀ g ∈ getters, getterPosted T g = true := by decide +kernel
+
+/-- catalogue_reads_table_getters.  Every catalogue statement that posts old/new values judges them against the
+getter the table names for that notification (`PayloadTruth` and `WillDid` speak about `ev.obs`: it is the table's
+getter); the two forwarding callbacks of Layer are judged with the glyph whose payload they forward. -/
+theorem catalogue_reads_table_getters : ∀ e ∈ catalogue, entryGetterOk e = true := by decide +kernel
+
+/-- the Will/Did pairs of `Spec/Setters.lean` and the subject keys of the getter table list the same wills -/
+theorem will_table_agrees : willTableOk = true := by decide
+
+/-- the table says `Layer.NameChanged` talks about `layer.name` under the keys oldName / newName, and the sources
+post it that way -/
+example : (getterOf "Layer.NameChanged").map (fun g => (g.oldKey, g.newKey, g.attr)) = some ("oldName", "newName", "name") ∧
+    (⟨"Layer", "_set_name", .lit "Layer.NameChanged", some ["oldName", "newName"]⟩ : PostSite) ∈ T.sites := by
+  decide +kernel
+/-- a statement that posted a glyph's width change under other keys would fail the obligation -/
+example : siteOk T ⟨"Glyph", "_set_width", .lit "Glyph.WidthChanged", some ["oldValue", "newWidth"]⟩ = false ∧
+    siteOk T ⟨"Glyph", "_set_width", .lit "Glyph.WidthChanged", some ["oldValue", "newValue", "oldName"]⟩ = false ∧
+    siteOk T ⟨"Glyph", "x", .lit "Glyph.Unheard", some ["oldValue", "newValue"]⟩ = false := by decide +kernel
 
 /-! ## 1. Sentence 1 — payloads -/
 
@@ -110,7 +148,8 @@ theorem will_did_criterion_sound (e : Entry) (h : willDidOk e = true) : WillDid 
 /-- entries with a will-notification that are outside the straight shape without being findings: the
 bottom-margin setter creates the vertical origin before its will (proved in section 4,
 `bottomMargin_will_before_did`); `ImageSet.__setitem__` posts its will conditionally, after restoring and
-dropping a pending deletion — NOT proved: validated by the correspondence runs and the oracle only -/
+dropping a pending deletion: proved in section 6 (`image_lifecycle_announcements`) for every history of an image
+set -/
 def outsideShape : List String := ["Glyph.bottomMargin=", "ImageSet.__setitem__"]
 
 /-- The criterion accepts every entry of the catalogue except the two above and exactly the call sites
@@ -317,6 +356,183 @@ its base name (what a callback that ignores `Layer.GlyphNameChanged` produces) h
 is filed there now -/
 example : (Follow.step { filed := [("a", 2)], data := [(1, 10), (2, 20)], comps := [⟨7, "a", .glyph 1⟩] } (.edit 2 21)).2 = [] := by
   decide
+
+/-! ## 6. Where the getter is a computation of its own
+
+### 6a. The life cycle of a file name in an image set -/
+
+/-- image_lifecycle_announcements.  After EVERY history of `images[name] = data` (with the digest of the entry kept
+under the name, or another one), `del images[name]` and `save` on a new image set, the next operation announces
+exactly what its effect on `name in images` documents, each notification delivered while `in` answers as stated:
+
+* `images[name] = data`, name absent — never there, deleted and saved, or deleted and still scheduled for deletion,
+  whatever the data: `ImageSet.ImageWillBeAdded` (`in` still False) then `ImageSet.ImageAdded` (`in` True);
+* name present, other data: `ImageSet.ImageChanged` (`in` True) and nothing else; same data: nothing, no change;
+* `del images[name]`, name present: `ImageSet.ImageWillBeDeleted` (`in` still True) then `ImageSet.ImageDeleted`
+  (`in` False), the name is scheduled for deletion; name absent: raises, nothing is announced, nothing changes;
+* no other name's answer changes; `save` announces nothing about images and forgets the scheduled deletions.
+
+(The deleted image coming back unannounced — same data assigned to a name scheduled for deletion — was finding
+F104, repaired in /repo.) -/
+theorem image_lifecycle_announcements (ops : List ImgOp) (op : ImgOp) :
+    ImgStepOk (imgRun imgEmpty ops) op (imgStep (imgRun imgEmpty ops) op) :=
+  imgStep_ok _ (wf_run _ wf_empty ops) op
+
+/-- … and the same from every image set whose two sets of names are duplicate free and disjoint (what every
+history preserves) -/
+theorem image_lifecycle_from_any_state (σ : Store) (h : ImgWF σ) (op : ImgOp) :
+    ImgStepOk σ op (imgStep σ op) ∧ ImgWF (imgStep σ op).store :=
+  ⟨imgStep_ok σ h op, wf_step σ h op⟩
+
+/-- set → same again → other data → delete → the deleted data again (no save) → delete → save → set: what the
+observer hears, with `7 in images` as it answers inside the callback -/
+example :
+    let h := [ImgOp.set 7 false, .set 7 true, .set 7 false, .del 7, .set 7 true, .del 7, .save, .set 7 false]
+    (List.range 8).map (fun i => announced (imgStep (imgRun imgEmpty (h.take i)) (h.getD i .save))) =
+      [[("ImageSet.ImageWillBeAdded", .int 7, .int 0), ("ImageSet.ImageAdded", .int 7, .int 1)],
+       [],
+       [("ImageSet.ImageChanged", .int 7, .int 1)],
+       [("ImageSet.ImageWillBeDeleted", .int 7, .int 1), ("ImageSet.ImageDeleted", .int 7, .int 0)],
+       [("ImageSet.ImageWillBeAdded", .int 7, .int 0), ("ImageSet.ImageAdded", .int 7, .int 1)],
+       [("ImageSet.ImageWillBeDeleted", .int 7, .int 1), ("ImageSet.ImageDeleted", .int 7, .int 0)],
+       [],
+       [("ImageSet.ImageWillBeAdded", .int 7, .int 0), ("ImageSet.ImageAdded", .int 7, .int 1)]] := by decide +kernel
+/-- the phases: present, scheduled after the delete, absent after the save -/
+example : (phase (imgRun imgEmpty [.set 7 false]) 7, phase (imgRun imgEmpty [.set 7 false, .del 7]) 7,
+    phase (imgRun imgEmpty [.set 7 false, .del 7, .save]) 7, phase (imgRun imgEmpty [.set 7 false, .del 7, .set 7 true]) 7) =
+    (.present, .scheduled, .absent, .present) := by decide +kernel
+/-- F104 as it was: an entry that returns at once when the digest is the one of the entry it has just taken back
+from the scheduled deletions makes `in` flip without a word -/
+def setItemBeforeFix : Entry :=
+  { imageSetSetItem with body := imageSetSetItem.body.filter (fun s => match s with
+      | .atom (.when (.var 3) _) => false
+      | _ => true) }
+example :
+    let σ := imgRun imgEmpty [.set 7 false, .del 7]
+    let r := runOp setItemBeforeFix { args := [.int 7, .int 0, .int 1] } σ
+    (imgHas σ 7, imgHas r.store 7, announced r) = (false, true, []) := by decide +kernel
+
+/-! ### 6b. The glyph order the font keeps in step with its layers -/
+
+/-- glyph_order_change_announced.  From EVERY state of a font (layers with their glyph names, a stored glyph order or
+none) and for every operation that goes through the font or its layers — `newGlyph`, `insertGlyph`, `del layer[name]`,
+a glyph renamed (also onto a taken name, also a name that lives on in another layer), `font.glyphOrder = …`, layers
+created and deleted: at most one `Font.GlyphOrderChanged` is delivered; its old value is what `font.glyphOrder`
+answered before the operation, its new value what `font.glyphOrder` answers when the observer is called and after
+the operation (payload = the stored lib value, compared modulo `None == []`); and WHENEVER `font.glyphOrder` answers
+differently after the operation than before it, that notification IS delivered.  (`stepN` is M-GlyphOrder, the model
+C12 is proved about, plus the one post of `_set_glyphOrder`: `order_model_is_glyph_order_model`.) -/
+theorem glyph_order_change_announced (f : GlyphOrder.Font) (op : GlyphOrder.Op) (h : OrderNotify.viaFont op = true) :
+    (∀ ev ∈ (OrderNotify.stepN f op).2,
+      OrderNotify.norm ev.old = GlyphOrder.glyphOrder f ∧ OrderNotify.norm ev.new = OrderNotify.norm ev.snap ∧
+      OrderNotify.norm ev.snap = GlyphOrder.glyphOrder (OrderNotify.stepN f op).1.1) ∧
+    (OrderNotify.stepN f op).2.length ≤ 1 ∧
+    (GlyphOrder.glyphOrder (OrderNotify.stepN f op).1.1 ≠ GlyphOrder.glyphOrder f →
+      (OrderNotify.stepN f op).2.length = 1) :=
+  OrderNotify.stepN_announced f op h
+
+/-- … in particular after every history -/
+theorem glyph_order_change_announced_after_history (ops : List GlyphOrder.Op) (op : GlyphOrder.Op)
+    (h : OrderNotify.viaFont op = true)
+    (hne : GlyphOrder.glyphOrder (OrderNotify.stepN (GlyphOrder.run {} ops) op).1.1 ≠
+      GlyphOrder.glyphOrder (GlyphOrder.run {} ops)) :
+    ∃ ev, (OrderNotify.stepN (GlyphOrder.run {} ops) op).2 = [ev] ∧
+      OrderNotify.norm ev.old = GlyphOrder.glyphOrder (GlyphOrder.run {} ops) ∧
+      OrderNotify.norm ev.new = GlyphOrder.glyphOrder (OrderNotify.stepN (GlyphOrder.run {} ops) op).1.1 := by
+  obtain ⟨ht, _, hl⟩ := glyph_order_change_announced (GlyphOrder.run {} ops) op h
+  have h1 := hl hne
+  match hevs : (OrderNotify.stepN (GlyphOrder.run {} ops) op).2, h1 with
+  | [ev], _ =>
+    have := ht ev (by simp [hevs])
+    exact ⟨ev, rfl, this.1, this.2.1.trans this.2.2⟩
+
+/-- M-OrderNotify changes nothing of M-GlyphOrder: same font, same result, for every operation. -/
+theorem order_model_is_glyph_order_model (f : GlyphOrder.Font) (op : GlyphOrder.Op) :
+    (OrderNotify.stepN f op).1 = GlyphOrder.step f op :=
+  OrderNotify.stepN_fst f op
+
+/-- a font that stores the order B, A: a new glyph, a rename and a delete are each announced with the order before
+and the order after; a glyph that is already listed changes nothing and is not announced -/
+example :
+    let f : GlyphOrder.Font := { layers := [("fore", { glyphs := ["A", "B"], observed := true })], lib := some ["B", "A"] }
+    ((OrderNotify.stepN f (.newGlyph "fore" "C")).2, (OrderNotify.stepN f (.rename "fore" "A" "A.alt")).2,
+     (OrderNotify.stepN f (.delGlyph "fore" "B")).2, (OrderNotify.stepN f (.newGlyph "fore" "A")).2) =
+    ([⟨some ["B", "A"], some ["B", "A", "C"], some ["B", "A", "C"]⟩],
+     [⟨some ["B", "A"], some ["B", "A.alt"], some ["B", "A.alt"]⟩],
+     [⟨some ["B", "A"], some ["A"], some ["A"]⟩], []) := by decide
+/-- the last glyph of the order deleted: the key leaves the lib, the payload says `None`, the getter `[]` -/
+example :
+    let f : GlyphOrder.Font := { layers := [("fore", { glyphs := ["A"], observed := true })], lib := some ["A"] }
+    (OrderNotify.stepN f (.delGlyph "fore" "A")).2 = [⟨some ["A"], none, none⟩] := by decide
+
+/-! ### 6c. The direction of a contour, zero area included -/
+
+/-- winding_payload_truth.  For EVERY valid contour — closed or open, lines, curves, any coordinates (integers in
+particular), a lone point, a two-point stroke, collinear points or a symmetric figure eight just as well as a
+contour with area — and every store of M-Setters that describes it: `contour.reverse()`, run by the catalogue entry
+with the one fact it takes from outside ("the area is zero") computed from the points, delivers one
+`Contour.WindingDirectionChanged` whose old value is the direction of the points before, whose new value is the
+direction of the REVERSED points — what `clockwise` (signed area < 0) computes when the observer is called —, and
+leaves a store that describes the reversed contour.  A contour without area is not clockwise before and not
+clockwise after: old = new = False. -/
+theorem winding_payload_truth (pts : List Geom.Point) (hshape : Geom.ReversibleShape pts)
+    (herr : Geom.drawErr pts = none) (σ : Store) (hσ : DescribesContour σ pts) :
+    let env : Env := { args := [b2v (zeroArea pts)] }
+    DescribesContour (runOp contourReverse env σ).store (Geom.reversePoints pts) ∧
+    WindingTruth env (runOp contourReverse env σ) pts (Geom.reversePoints pts) ∧
+    ((runOp contourReverse env σ).evs.map (·.name)) = ["Contour.WindingDirectionChanged", "Contour.PointsChanged"] :=
+  reverse_run pts hshape herr σ hσ
+
+/-- winding_payload_truth for the setter.  `contour.clockwise = v`: nothing happens when the contour already answers
+`v`; otherwise the contour is reversed and announced truthfully as above — for a contour without area the announced
+new value is False again, NOT `v` (the direction of such a contour cannot be set). -/
+theorem winding_payload_truth_setter (pts : List Geom.Point) (hshape : Geom.ReversibleShape pts)
+    (herr : Geom.drawErr pts = none) (σ : Store) (hσ : DescribesContour σ pts) (v : Bool) :
+    let env : Env := { args := [b2v v, b2v (zeroArea pts)] }
+    (clockwiseOf pts = v → (runOp contourClockwise env σ).evs = [] ∧ (runOp contourClockwise env σ).store = σ) ∧
+    (clockwiseOf pts ≠ v →
+      DescribesContour (runOp contourClockwise env σ).store (Geom.reversePoints pts) ∧
+      WindingTruth env (runOp contourClockwise env σ) pts (Geom.reversePoints pts) ∧
+      ((runOp contourClockwise env σ).evs.map (·.name)) = ["Contour.WindingDirectionChanged", "Contour.PointsChanged"]) :=
+  setClockwise_run pts hshape herr σ hσ v
+
+/-- the geometric fact behind it: reversing flips the direction exactly when the contour has area -/
+theorem reverse_flips_unless_zero_area (pts : List Geom.Point) (hshape : Geom.ReversibleShape pts)
+    (herr : Geom.drawErr pts = none) :
+    clockwiseOf (Geom.reversePoints pts) = (if zeroArea pts then clockwiseOf pts else !clockwiseOf pts) :=
+  clockwiseOf_reverse pts hshape herr
+
+namespace Ex
+def P (x y : Int) (t : Geom.Seg := .line) : Geom.Point := { pt := ⟨x, y⟩, seg := some t }
+/-- a lone point, an open two-point stroke, a closed two-point contour, three collinear points, a symmetric figure
+eight, and a square (counter-clockwise, area 100) -/
+def lone : List Geom.Point := [P 10 20 .move]
+def stroke : List Geom.Point := [P 0 0 .move, P 30 40]
+def twoClosed : List Geom.Point := [P 0 0, P 30 40]
+def collinear : List Geom.Point := [P 0 0, P 10 10, P 30 30]
+def eight : List Geom.Point := [P 0 0, P 20 20, P 20 0, P 0 20]
+def square : List Geom.Point := [P 0 0, P 10 0, P 10 10, P 0 10]
+def degenerate : List (List Geom.Point) := [lone, stroke, twoClosed, collinear, eight]
+end Ex
+
+/-- the hypotheses are met by all of them, the degenerate ones have no area and are not clockwise, before and after -/
+example : (∀ c ∈ Ex.square :: Ex.degenerate, Geom.ReversibleShape c ∧ Geom.drawErr c = none) ∧
+    (∀ c ∈ Ex.degenerate, zeroArea c = true ∧ clockwiseOf c = false ∧ clockwiseOf (Geom.reversePoints c) = false) ∧
+    (zeroArea Ex.square, clockwiseOf Ex.square, clockwiseOf (Geom.reversePoints Ex.square)) = (false, false, true) := by
+  decide +kernel
+/-- what the observer of the reversed figure eight is told: False → False, and `clockwise` answers False -/
+example :
+    let env : Env := { args := [b2v (zeroArea Ex.eight)] }
+    (runOp contourReverse env [("clockwise", b2v (clockwiseOf Ex.eight))]).evs.map (fun ev => (ev.name, ev.old, ev.new, ev.now env)) =
+      [("Contour.WindingDirectionChanged", some (.int 0), some (.int 0), .int 0),
+       ("Contour.PointsChanged", none, none, .int 0)] := by decide +kernel
+/-- `eight.clockwise = True` announces False → False (it cannot be made clockwise); `square.clockwise = True` announces
+False → True -/
+example :
+    ((runOp contourClockwise { args := [b2v true, b2v (zeroArea Ex.eight)] } [("clockwise", b2v (clockwiseOf Ex.eight))]).evs.map
+        (fun ev => (ev.old, ev.new))).head? = some (some (.int 0), some (.int 0)) ∧
+    ((runOp contourClockwise { args := [b2v true, b2v (zeroArea Ex.square)] } [("clockwise", b2v (clockwiseOf Ex.square))]).evs.map
+        (fun ev => (ev.old, ev.new))).head? = some (some (.int 0), some (.int 1)) := by decide +kernel
 
 /-! ## Non-vacuity: concrete runs, and the criteria at work -/
 
